@@ -57,6 +57,11 @@ def _make(name):
         def target(*args, **kwargs):
             LOG.append((name, args, kwargs))
             return args[0] if args else (next(iter(kwargs.values())) if kwargs else None)
+    elif name.startswith('ordr'):
+        def target(*args, **kwargs):
+            # reports the positions its arguments arrived at
+            LOG.append((name, _safe_copy(args), _safe_copy(kwargs)))
+            return {'positional': list(args), 'named': dict(kwargs)}
     elif name.startswith('raise'):
         def target(*args, **kwargs):
             LOG.append((name, _safe_copy(args), _safe_copy(kwargs)))
